@@ -20,6 +20,22 @@ Anything else on those modules (os.rename, os.remove, os.truncate, open(..., "w"
 is outside the subset: Unsupported, fail closed.  Dropping or moving an fsync therefore CHANGES the
 generated definition, and the proofs of Props/C16.v (which unfold it) are re-checked against it.
 
+ERROR PATHS (the `except` handlers, read separately -- they decide what a FAILING call does):
+
+    gen_*_fallible   how many of the calls above, counted from the first, raise to the caller when the OS
+                     refuses them.  Every `try` statement that encloses one of the mapped calls is examined:
+                     a handler may (a) end in a bare `raise` / `raise X(...) from e` on every path (the error
+                     propagates), or (b) be `except AttributeError: pass` (no such function on this platform:
+                     the call was never made), or (c) be `except OSError as e: if not dir_fsync_unsupported(e):
+                     raise ...` around the DIRECTORY fsync only (the file system said "directories cannot be
+                     fsynced here"; every attempted-and-failed sync propagates).  A handler that swallows an
+                     OSError of a mapped call in any other way (`except (OSError, AttributeError): pass` -- the
+                     audit finding that a failing directory fsync left an acknowledged commit whose rename was
+                     not durable) is Unsupported: fail closed.  Today both are 5 = every call.
+    gen_*_on_error   what the routine's cleanup handler does before re-raising: `if os.path.exists(temp):
+                     os.remove(temp)` -> [Unlink tmp] (Model/Durable.v applies it only while the temp name
+                     exists: failed_of).  Any other statement in that handler is Unsupported.
+
 Also pinned (golden order, modelled by hand in Model/Durable.v `commit_body` / `pub_item`):
     Transaction.append_data            _register_inflight(...)  before  write_data_file(...)
     FileManager.create_manifest_file   pre_write_hook(...)      before  storage.write_file(...)
@@ -232,6 +248,119 @@ def _sequence(calls: List[Tuple[ast.Call, Optional[str]]], temp_vars: set, final
     return seq
 
 
+MAPPED = ("tempfile.mkstemp", "tempfile.NamedTemporaryFile", "os.write", "os.fsync", "os.fdatasync", "os.replace", "os.open")
+
+
+def _has_mapped_call(stmts: List[ast.stmt], writer_close: Optional[str]) -> bool:
+    for st in stmts:
+        for n in ast.walk(st):
+            if isinstance(n, ast.Call) and (_call_name(n) in MAPPED or (writer_close is not None and _call_name(n) == writer_close)):
+                return True
+    return False
+
+
+def _always_raises(body: List[ast.stmt]) -> bool:
+    """The handler body re-raises on every path (after best-effort cleanup that cannot itself escape)."""
+    if not body:
+        return False
+    last = body[-1]
+    if isinstance(last, ast.Raise):
+        return True
+    if isinstance(last, ast.If) and last.orelse:
+        return _always_raises(last.body) and _always_raises(last.orelse)
+    return False
+
+
+def _is_dir_sync_try(t: ast.Try, dir_vars: set) -> bool:
+    """`try: fd = os.open(<dir of the final path>, os.O_RDONLY); try: os.fsync(fd) finally: os.close(fd)`"""
+    opens = [n for st in t.body for n in ast.walk(st) if isinstance(n, ast.Call) and _call_name(n) == "os.open"]
+    others = [n for st in t.body for n in ast.walk(st) if isinstance(n, ast.Call) and _call_name(n) in MAPPED and _call_name(n) not in ("os.open", "os.fsync")]
+    return bool(opens) and not others and all(_name(o.args[0]) in dir_vars for o in opens)
+
+
+def _handler_names(h: ast.ExceptHandler) -> List[str]:
+    if h.type is None:
+        return ["BaseException"]
+    if isinstance(h.type, ast.Tuple):
+        return [dump(x) if not isinstance(x, ast.Name) else x.id for x in h.type.elts]
+    return [h.type.id] if isinstance(h.type, ast.Name) else [dump(h.type)]
+
+
+def _check_error_paths(fn: ast.FunctionDef, where: str, dir_vars: set, temp_vars: set, writer_close: Optional[str]) -> List[str]:
+    """Every try statement around a mapped call: its handlers must let an OS failure of that call reach the
+    caller (see the module docstring).  Returns the cleanup the outermost such handler performs, as model calls."""
+    on_error: Optional[List[str]] = None
+
+    def cleanup_of(body: List[ast.stmt]) -> List[str]:
+        """statements before the final raise: only `try: if os.path.exists(t): os.remove(t) except Exception: pass`"""
+        out: List[str] = []
+        for st in body[:-1]:
+            ok = False
+            if isinstance(st, ast.Try) and not st.orelse and not st.finalbody and len(st.body) == 1 and isinstance(st.body[0], ast.If):
+                g = st.body[0]
+                if (not g.orelse and isinstance(g.test, ast.Call) and _call_name(g.test) == "os.path.exists" and _name(g.test.args[0]) in temp_vars
+                        and len(g.body) == 1 and isinstance(g.body[0], ast.Expr) and isinstance(g.body[0].value, ast.Call)
+                        and _call_name(g.body[0].value) == "os.remove" and _name(g.body[0].value.args[0]) == _name(g.test.args[0])
+                        and all(len(hh.body) == 1 and isinstance(hh.body[0], ast.Pass) for hh in st.handlers)):
+                    out.append("Unlink tmp")
+                    ok = True
+            if not ok:
+                raise Unsupported(f"{where}: statement in the cleanup handler of a publish routine: {ast.unparse(st)[:90]}")
+        return out
+
+    def visit(stmts: List[ast.stmt]) -> None:
+        nonlocal on_error
+        for st in stmts:
+            if isinstance(st, ast.Try):
+                if _has_mapped_call(st.body, writer_close):
+                    dirsync = _is_dir_sync_try(st, dir_vars)
+                    for h in st.handlers:
+                        names = _handler_names(h)
+                        if names == ["AttributeError"] and len(h.body) == 1 and isinstance(h.body[0], ast.Pass):
+                            continue                                   # (b)
+                        if dirsync and names == ["OSError"] and h.name and len(h.body) == 1 and isinstance(h.body[0], ast.If):
+                            g = h.body[0]                              # (c)
+                            if (not g.orelse and ast.unparse(g.test) == f"not dir_fsync_unsupported({h.name})"
+                                    and len(g.body) == 1 and isinstance(g.body[0], ast.Raise)):
+                                continue
+                        if _always_raises(h.body) and isinstance(h.body[-1], ast.Raise):
+                            if not dirsync:                             # (a) with cleanup: the routine's outer handler
+                                c = cleanup_of(h.body)
+                                if on_error is not None and c != on_error:
+                                    raise Unsupported(f"{where}: two different cleanup handlers")
+                                on_error = c
+                            continue
+                        raise Unsupported(f"{where}: `except {', '.join(names)}` around {'the directory fsync' if dirsync else 'a durability call'} "
+                                          f"does not let the OS failure reach the caller (a swallowed failure lets the commit go on to "
+                                          f"advance the pointer): {ast.unparse(h)[:120]!r}")
+                visit(st.body)
+                visit(st.orelse)
+                visit(st.finalbody)
+                # handlers are error paths: a mapped call inside one would be an unmodelled OS call
+                for h in st.handlers:
+                    if _has_mapped_call(h.body, writer_close):
+                        raise Unsupported(f"{where}: durability call inside an except handler")
+            elif isinstance(st, (ast.If, ast.While, ast.For)):
+                visit(st.body)
+                visit(st.orelse)
+            elif isinstance(st, ast.With):
+                visit(st.body)
+    visit(strip_docstring(fn.body))
+    if on_error is None:
+        raise Unsupported(f"{where}: no cleanup handler (except ...: remove the temp file; raise) around the durability calls")
+    return on_error
+
+
+def _dir_fsync_unsupported_pin(sb: ast.Module) -> None:
+    """dir_fsync_unsupported(exc) may say True only for `unsupported here`: Windows, or an errno from the fixed set."""
+    fn = find_function(sb, "dir_fsync_unsupported", None)
+    body = strip_docstring(fn.body)
+    want = ["if os.name == 'nt':\n    return True", "return exc.errno in (errno.EINVAL, errno.ENOTSUP, errno.EOPNOTSUPP)"]
+    got = [ast.unparse(x) for x in body]
+    if got != want:
+        raise Unsupported(f"dir_fsync_unsupported changed (which failures of a directory fsync are tolerated): {got}")
+
+
 def _render(name: str, seq: List[str], doc: str) -> str:
     body = "; ".join(seq)
     return f"(* {doc} *)\nDefinition {name} (tmp p : path) (c : content) : list call :=\n  [{body}].\n"
@@ -265,6 +394,8 @@ def gen(src: str) -> str:
     wf = find_function(sb, "write_file", "LocalStorageBackend")
     calls = _ordered_calls(strip_docstring(wf.body))
     seq_wf = _sequence(calls, temp_vars=set(), final_vars={"full_path"}, dir_vars={"dir_path"}, writer_close=None)
+    err_wf = _check_error_paths(wf, "LocalStorageBackend.write_file", {"dir_path"}, {"temp_path"}, None)
+    _dir_fsync_unsupported_pin(sb)
 
     # ---- DataFileWriter.open (local branch) + close
     op = find_function(do, "open", "DataFileWriter")
@@ -277,6 +408,7 @@ def gen(src: str) -> str:
         raise Unsupported("DataFileWriter.close: temp_name / dir_path bindings changed")
     seq_dw = _sequence(ocalls + ccalls, temp_vars={"self._temp_file.name", "temp_name"}, final_vars={"self.file_path"},
                        dir_vars={"dir_path"}, writer_close="self._writer.close")
+    err_dw = _check_error_paths(cl, "DataFileWriter.close", {"dir_path"}, {"temp_name"}, "self._writer.close")
 
     # ---- golden order of the commit's steps (modelled by hand)
     _require_order(find_function(tx, "append_data", "Transaction"), "Transaction.append_data", "_register_inflight", "write_data_file")
@@ -301,5 +433,13 @@ def gen(src: str) -> str:
            "Import ListNotations.",
            "",
            _render("gen_write_file", seq_wf, "LocalStorageBackend.write_file: calls on os / tempfile in program order"),
-           _render("gen_data_writer", seq_dw, "DataFileWriter.open (local branch) + close: calls on os / tempfile / the parquet writer in program order")]
+           _render("gen_data_writer", seq_dw, "DataFileWriter.open (local branch) + close: calls on os / tempfile / the parquet writer in program order"),
+           "(* ERROR PATHS.  How many of the calls, counted from the first, raise to the caller when the OS refuses them\n"
+           "   (every enclosing `try` lets the failure out; a swallowed OSError is rejected by the translator) ... *)",
+           f"Definition gen_write_file_fallible : nat := {len(seq_wf)}%nat.",
+           f"Definition gen_data_writer_fallible : nat := {len(seq_dw)}%nat.",
+           "(* ... and what the routine's cleanup handler does before re-raising (guarded by os.path.exists(temp)) *)",
+           f"Definition gen_write_file_on_error (tmp : path) : list call := [{'; '.join(err_wf)}].",
+           f"Definition gen_data_writer_on_error (tmp : path) : list call := [{'; '.join(err_dw)}].",
+           ""]
     return "\n".join(out)
